@@ -4,6 +4,10 @@ DF = "src/code/definitions.rs"
 O = "src/code/opcode.rs"
 
 RW = [
+    # std shapes that do not occur in the current code but are the obvious alternatives for the same job;
+    # with them a rewritten function still reaches the verifier instead of ending as "unsupported"
+    dict(rule="R3", re=r"\(([^()]+) as u16\)\.to_be_bytes\(\)", to=r"u16_to_be_bytes(\1 as u16)", why="const-generic std fn shim (big-endian bytes of a u16)"),
+    dict(rule="R3", re=r"(\w+)\[([^\]]+?)\.\.([^\]]+?)\]\.copy_from_slice\(&([^;]+)\);", to=r"copy_into(\1, \2, \3, &\4);", why="range copy_from_slice -> shim with bounds as precondition"),
     dict(rule="R1", re=r"self\.scopes\[self\.scope_index\]\.instructions\.clone\(\)", to="clone_instructions(&self.scopes[self.scope_index].instructions)", why="derived Clone -> structural-copy shim"),
     dict(rule="R1", re=r"self\.scopes\[self\.scope_index\]\.(last_ins|prev_ins)\.clone\(\)", to=r"clone_emitted(&self.scopes[self.scope_index].\1)", why="derived Clone -> structural-copy shim"),
     dict(rule="R3", re=r"definitions::make\(", to="make(", why="module path dropped (single-file extraction)"),
